@@ -321,6 +321,7 @@ type c16Conn struct {
 	failAcks int32   // atomic: the sending direction is broken for PUBACK/PUBREC/PUBCOMP (reads still work)
 	// family rc
 	onWrite func(c *c16Conn, typ byte)
+	onPub   func(p []byte) // an outbound PUBLISH was written (the whole packet)
 }
 
 func newC16Conn(ctl *c16Ctl) *c16Conn {
@@ -376,6 +377,9 @@ func (c *c16Conn) Write(p []byte) (int, error) {
 	}
 	if closed {
 		return 0, errC16Local
+	}
+	if c.onPub != nil && typ == 0x30 {
+		c.onPub(p)
 	}
 	if c.onWrite != nil {
 		c.onWrite(c, typ)
@@ -1046,6 +1050,8 @@ type c16Epoch struct {
 	wrote   chan struct{} // CONNECT was written: init() has run, Done() is the channel of this connection
 	ping    chan struct{}
 	pubrec  chan struct{} // a PUBREC was written
+	pub     chan uint16   // an outbound QoS 1 PUBLISH was written (its packet id); never acknowledged by the peer itself
+	disc    int32         // atomic: a DISCONNECT was written
 	answer  int32         // answer PINGREQ
 	refuse  int32         // CONNACK return code
 	closedE error
@@ -1064,15 +1070,29 @@ func (r *c16RC) dial(ctx context.Context) (*mqtt.BaseClient, error) {
 	r.mu.Lock()
 	k := len(r.epochs)
 	ans, refuse := r.plan(k)
-	ep := &c16Epoch{k: k, active: make(chan struct{}), wrote: make(chan struct{}), ping: make(chan struct{}, 64), pubrec: make(chan struct{}, 8)}
+	ep := &c16Epoch{k: k, active: make(chan struct{}), wrote: make(chan struct{}), ping: make(chan struct{}, 64), pubrec: make(chan struct{}, 8), pub: make(chan uint16, 8)}
 	var wroteOnce sync.Once
 	if ans {
 		ep.answer = 1
 	}
 	ep.refuse = int32(refuse)
 	ep.conn = newC16Conn(nil)
+	ep.conn.onPub = func(p []byte) {
+		// fixed header (remaining length < 128 in these scenarios), topic, packet id
+		if len(p) >= 4 && p[0]&0x06 != 0 && p[1] < 128 {
+			n := 4 + int(p[2])<<8 + int(p[3])
+			if len(p) >= n+2 {
+				select {
+				case ep.pub <- uint16(p[n])<<8 | uint16(p[n+1]):
+				default:
+				}
+			}
+		}
+	}
 	ep.conn.onWrite = func(c *c16Conn, typ byte) {
 		switch typ {
+		case 0xE0:
+			atomic.StoreInt32(&ep.disc, 1)
 		case 0x10:
 			wroteOnce.Do(func() { close(ep.wrote) })
 			r.tl.tev(k, fmt.Sprintf("(TPeerAck 0 %d)", refuse))
@@ -1191,6 +1211,8 @@ const c16OptPing = 25 * time.Millisecond // kind "opts": its default Timeout is 
 //	"graceful_late"        healthy, Disconnect, sampled >= 60 ms (12 ping intervals) later
 //	"opts"                 option-presence sweep (code = bits {CONNECT keep-alive, WithPingInterval, WithTimeout}) on a healthy peer, then Disconnect
 //	"ka_graceful_inflight" PINGREQ in flight (never answered, long timeout) when Disconnect is called
+//	"graceful_pub_inflight" a QoS 1 PUBLISH is in flight (PUBACK withheld) when Disconnect is called: the DISCONNECT is queued
+//	                       behind it in the RetryClient; the peer sends the PUBACK only 1.5 s after the call of Disconnect
 func c16RunRC(kind string, code int) (res c16RCResult) {
 	tl := &c16Timeline{}
 	r := &c16RC{tl: tl, newEp: make(chan *c16Epoch, 16)}
@@ -1237,12 +1259,15 @@ func c16RunRC(kind string, code int) (res c16RCResult) {
 	}
 	ctx, cancel := ctxTimeout(3 * c16Wait)
 	defer cancel()
+	discCalled := false
 	fail := func(e error) c16RCResult {
 		tl.tev(0, "TStuck")
 		tl.add("", e.Error())
 		res.items, res.human = tl.snapshot()
 		res.stuck = e.Error()
-		go rc.Disconnect(ctx)
+		if !discCalled { // a second ReconnectClient.Disconnect panics (close of a closed channel)
+			go rc.Disconnect(ctx)
+		}
 		return res
 	}
 	connRes := make(chan error, 1)
@@ -1255,6 +1280,7 @@ func c16RunRC(kind string, code int) (res c16RCResult) {
 		return fail(err)
 	}
 	last := ep0
+	var pubID uint16
 	switch kind {
 	case "ka_timeout":
 		tl.tev(0, "TKATimeout")
@@ -1380,6 +1406,22 @@ func c16RunRC(kind string, code int) (res c16RCResult) {
 			if err := c16WaitCh(ep0.ping, "first PINGREQ"); err != nil {
 				return fail(err)
 			}
+		case kind == "graceful_pub_inflight":
+			var errPub error
+			if !c16Guard(func() {
+				errPub = rc.Publish(ctx, &mqtt.Message{Topic: "a", QoS: mqtt.QoS1, Payload: []byte("x")})
+			}) {
+				return fail(fmt.Errorf("stuck: ReconnectClient.Publish does not return"))
+			}
+			if errPub != nil {
+				return fail(fmt.Errorf("ReconnectClient.Publish: %v", errPub))
+			}
+			select {
+			case pubID = <-ep0.pub:
+			case <-time.After(c16Limit()):
+				atomic.AddInt32(&c16Expired, 1)
+				return fail(fmt.Errorf("stuck: the QoS 1 PUBLISH is not written"))
+			}
 		case kind == "opts":
 			// a healthy peer that answers every PINGREQ at once, watched for several ping
 			// intervals: nothing may be reported, Err() nil, Done() open, one dial
@@ -1412,11 +1454,18 @@ func c16RunRC(kind string, code int) (res c16RCResult) {
 	// graceful Disconnect of the current connection
 	k := last.k
 	tl.tev(k, "TCallDisconnect")
-	tl.sys("SDiscRequest")
-	tl.step(k, "LDiscUpdate")
-	tl.step(k, "(LDiscWrite true)")
-	tl.tev(k, "TDiscClose")
-	tl.step(k, "LDiscClose")
+	discLabels := func() {
+		tl.sys("SDiscRequest")
+		tl.step(k, "LDiscUpdate")
+		tl.step(k, "(LDiscWrite true)")
+		tl.tev(k, "TDiscClose")
+		tl.step(k, "LDiscClose")
+	}
+	if kind != "graceful_pub_inflight" {
+		discLabels()
+	}
+	called := time.Now()
+	discCalled = true
 	var errDisc error
 	if !c16Guard(func() { errDisc = rc.Disconnect(ctx) }) {
 		return fail(fmt.Errorf("stuck: ReconnectClient.Disconnect does not return"))
@@ -1424,9 +1473,30 @@ func c16RunRC(kind string, code int) (res c16RCResult) {
 	if errDisc != nil {
 		return fail(fmt.Errorf("ReconnectClient.Disconnect: %v", errDisc))
 	}
+	if kind == "graceful_pub_inflight" {
+		// Disconnect of the reconnecting client has returned nil; BaseClient.Disconnect is still
+		// queued behind the PUBLISH that waits for its PUBACK. The connection must stay as it is
+		// (nothing reported, Err() nil, Done() open) until the peer acknowledges, 1.5 s after the
+		// call; then the queued Disconnect runs: DISCONNECT written, Disconnected, Err() nil.
+		for _, at := range []time.Duration{500 * time.Millisecond, 1200 * time.Millisecond, 1500 * time.Millisecond} {
+			if d := at - time.Since(called); d > 0 {
+				time.Sleep(d)
+			}
+			if !c16Sample(tl, k, last.cli) {
+				return fail(errors.New("stuck: Err()/Done() did not return"))
+			}
+		}
+		discLabels()
+		last.conn.send(encID(0x40, pubID))
+	}
 	tl.tev(k, "(TDiscRet true)")
 	if err := last.waitDone("Done after Disconnect"); err != nil {
 		return fail(err)
+	}
+	if kind == "graceful_pub_inflight" && atomic.LoadInt32(&last.disc) == 0 {
+		// an observation, not an expired wait: Disconnect was called and returned nil, the
+		// connection has ended, and no DISCONNECT was written to the peer (it would publish the Will)
+		return fail(errors.New("no DISCONNECT was written although Disconnect returned nil and Done() is closed"))
 	}
 	tl.step(k, "(LServeFail ELocalClosed)")
 	c16ExitLabels(tl, k)
@@ -1675,6 +1745,24 @@ func runC16(cfg *runCfg) error {
 			m.Samples = append(m.Samples, desc)
 		}
 	}
+	// Disconnect with a QoS 1 PUBLISH in flight (1.5 s): runs beside the other rc scenarios, it
+	// mostly sleeps; collected after them
+	pubInflight := make(chan c16RCResult, 1)
+	if !c16GiveUp() {
+		go func() {
+			var res c16RCResult
+			for try := 0; try < 2; try++ {
+				res = c16RunRC("graceful_pub_inflight", 0)
+				if (res.stuck == "" && !res.disturbed) || c16GiveUp() {
+					break
+				}
+			}
+			pubInflight <- res
+		}()
+	} else {
+		skipped++
+		close(pubInflight)
+	}
 	for _, e := range fileRC {
 		oldP := 0
 		if e.GoMaxProcs > 0 {
@@ -1714,6 +1802,18 @@ func runC16(cfg *runCfg) error {
 	for i := 0; i < 2*rcReps; i++ {
 		addRC("ka_graceful_inflight", 0)
 	}
+	if res, ok := <-pubInflight; ok {
+		desc := map[string]interface{}{"scenario": "graceful_pub_inflight", "refuse_code": 0, "timeline": res.human,
+			"replay": "ReconnectClient over an in-memory dialer; Connect; Publish QoS 1, the peer withholds the PUBACK; Disconnect (returns nil); the peer sends the PUBACK 1.5 s after the call; expected: callbacks Active, Disconnected; Err() nil after Done(); DISCONNECT written"}
+		if res.stuck != "" {
+			rcStuck++
+			desc["stuck"] = res.stuck
+		}
+		rcCases = append(rcCases, cTuple("true", cListInline(res.items)))
+		m.Families["rc"] = append(m.Families["rc"], desc)
+		macroCount["rc:graceful_pub_inflight"]++
+		nontrivial++
+	}
 
 	cf.def("bc_cases", "list c16_case", cList(bc))
 	cf.def("rc_cases", "list c16_case", cList(rcCases))
@@ -1723,7 +1823,7 @@ func runC16(cfg *runCfg) error {
 	cf.result("M_rc", "c16_model_mismatches rc_cases")
 	m.Evaluations = len(bc) + len(rcCases)
 	m.DistinctNontrivial = nontrivial
-	m.Rule = fmt.Sprintf("family bc: a real BaseClient over a gated in-memory transport; every valid scenario of up to %d macro steps over {start Connect, let the CONNECT write succeed/fail, peer sends accepting/refusing CONNACK, peer closes, Close(), release the reader's Transport.Close / the Closed, Active, Disconnected callbacks, start Disconnect, let the DISCONNECT write succeed/fail, let Disconnect close, cancel Connect's context}, each completed by releasing everything; plus %d random scenarios of 5-14 steps with all malformed-packet kinds and refusal codes 1-5 and three completion orders; Err() and Done() polled after every step (also inside callbacks). family rc: the real ReconnectClient with an in-memory dialer (ping 5 ms): keep-alive timeout, idle cut then healthy connection sampled >= 60 ms later, refused CONNACK codes 1-5, graceful Disconnect sampled >= 60 ms later, Disconnect with a PINGREQ in flight (GOMAXPROCS 1 and default). non-trivial = distinct bc timeline with >= 4 macro steps, or any rc scenario", depth, nRand)
+	m.Rule = fmt.Sprintf("family bc: a real BaseClient over a gated in-memory transport; every valid scenario of up to %d macro steps over {start Connect, let the CONNECT write succeed/fail, peer sends accepting/refusing CONNACK, peer closes, Close(), release the reader's Transport.Close / the Closed, Active, Disconnected callbacks, start Disconnect, let the DISCONNECT write succeed/fail, let Disconnect close, cancel Connect's context}, each completed by releasing everything; plus %d random scenarios of 5-14 steps with all malformed-packet kinds and refusal codes 1-5 and three completion orders; Err() and Done() polled after every step (also inside callbacks). family rc: the real ReconnectClient with an in-memory dialer (ping 5 ms): keep-alive timeout, idle cut then healthy connection sampled >= 60 ms later, refused CONNACK codes 1-5, graceful Disconnect sampled >= 60 ms later, Disconnect with a PINGREQ in flight (GOMAXPROCS 1 and default), Disconnect with a QoS 1 PUBLISH in flight whose PUBACK the peer sends 1.5 s after the call (one case). non-trivial = distinct bc timeline with >= 4 macro steps, or any rc scenario", depth, nRand)
 	m.Distribution["bc_corpus"] = nCorpus
 	m.Distribution["bc_connack_sweep"] = nSweep
 	m.Distribution["bc_enumerated"] = nEnum - nCorpus - nSweep
